@@ -117,8 +117,23 @@ pub fn g2_off_subgroup_and_off_curve(rng: &mut impl RngCore) -> ([u8; 96], [u8; 
     (off_sub.unwrap(), off_curve.unwrap())
 }
 
+thread_local! {
+    static INVALID_CACHE: std::cell::RefCell<std::collections::BTreeMap<Kind, Vec<(&'static str, Vec<u8>)>>> =
+        std::cell::RefCell::new(std::collections::BTreeMap::new());
+}
+
 /// Encodings that no decoder may accept at a position of this kind, whatever the position.
+/// (Computed once per process and kind: the off-curve / out-of-subgroup samples are searched.)
 pub fn universally_invalid(kind: Kind, rng: &mut impl RngCore) -> Vec<(&'static str, Vec<u8>)> {
+    if let Some(v) = INVALID_CACHE.with(|c| c.borrow().get(&kind).cloned()) {
+        return v;
+    }
+    let v = universally_invalid_uncached(kind, rng);
+    INVALID_CACHE.with(|c| c.borrow_mut().insert(kind, v.clone()));
+    v
+}
+
+fn universally_invalid_uncached(kind: Kind, rng: &mut impl RngCore) -> Vec<(&'static str, Vec<u8>)> {
     match kind {
         Kind::G1 => {
             let (os, oc) = g1_off_subgroup_and_off_curve(rng);
